@@ -491,6 +491,16 @@ func (lb *LoadBalancer) AddBackend(backendCfg config.BackendConfig) error {
 
 	proxy.Transport = transport
 
+	// A status code outside 100..999 cannot be passed on: net/http panics on it when the
+	// header is written - for responses whose header a plugin holds back, that can be on the
+	// proxy's flush timer, where nothing recovers the panic. Such an answer is a bad gateway.
+	proxy.ModifyResponse = func(res *http.Response) error {
+		if res.StatusCode < 100 || res.StatusCode > 999 {
+			return fmt.Errorf("backend sent invalid status code %d", res.StatusCode)
+		}
+		return nil
+	}
+
 	// Create the backend
 	// If weight is not specified or is invalid, default to 1
 	weight := backendCfg.Weight
